@@ -314,7 +314,7 @@ func (d *s1Deliveries) snapshot() [][]byte {
 }
 
 func TestC17Line(t *testing.T) {
-	ev.Rule("a real secs1 connection (host/equipment x active/passive, device id 0..0x7FFF) against the reference E4 line peer in virtual time (T1 50 ms, T2 150 ms, T4 150 ms). Outbound: messages with body lengths 0, 2, 243..246, 487..490, 731..733, 976, 977 and drawn lengths to 8 KiB, every stream/function/W/system-bytes value, sent by SendDataMessage and ForwardDataMessage, with the peer NAK-ing a drawn block once; every acknowledged block image must equal the reference split. Inbound: block sequences over the statement's alphabet plus bad checksum / bad length images, sent character by character by the peer; well-formed blocks must be ACKed, corrupt ones NAKed, the handler must receive exactly the messages of the reference assembler, and afterwards the link must still be Selected and deliver a probe message; non-trivial = a message spans >= 2 blocks or a non-valid block is followed by a delivered message")
+	ev.Rule("a real secs1 connection (host/equipment x active/passive, device id 0..0x7FFF) against the reference E4 line peer in virtual time (T1 50 ms, T2 150 ms, T4 150 ms). Outbound: messages with body lengths 0, 2, 243..246, 487..490, 731..733, 976, 977 and drawn lengths to 8 KiB, every stream/function/W/system-bytes value, sent by SendDataMessage and ForwardDataMessage, with the peer NAK-ing a drawn block once; every acknowledged block image must equal the reference split. Inbound: block sequences over the statement's alphabet plus bad checksum / bad length images, sent character by character by the peer; well-formed blocks must be ACKed, corrupt ones NAKed, the handler must receive exactly the messages of the reference assembler, and afterwards the link must still be Selected and deliver a probe message. Duplex (library = host): the application starts a send between two blocks of an inbound 2-4 block message, the peer (master) contends, the remaining inbound blocks are taken inside the library's yielded send; the inbound message must be delivered once and intact and the postponed send must follow with reference block images; non-trivial = a message spans >= 2 blocks or a non-valid block is followed by a delivered message")
 	vt.Bubble(t, func(t *testing.T) {
 		vt.CheckBubble(t, 6000, 300000, func(rt *rapid.T) { runC17Line(rt) })
 	})
@@ -358,8 +358,77 @@ func runC17Line(rt *rapid.T) {
 	}
 	nontrivial := false
 	var cls []string
-	part := rapid.SampledFrom([]string{"outbound", "inbound"}).Draw(rt, "direction")
-	if part == "outbound" {
+	parts := []string{"outbound", "inbound"}
+	if !equip {
+		parts = append(parts, "duplex") // the library is the host (slave): it yields when both ends request the line
+	}
+	part := rapid.SampledFrom(parts).Draw(rt, "direction")
+	if part == "duplex" {
+		// An inbound multi-block message is under way when the application starts a send: the library
+		// requests the line, the equipment (master, the peer) contends with the ENQ of its NEXT block,
+		// the library yields and takes that block inside its own send. The block belongs to the message
+		// begun on the idle line: it must be assembled with the earlier blocks, and the postponed send
+		// must follow, block images unchanged.
+		nb := rapid.IntRange(2, 4).Draw(rt, "inboundBlocks")
+		after := rapid.IntRange(1, nb-1).Draw(rt, "sendStartsAfterBlock")
+		inBody := make([]byte, (nb-1)*244+rapid.IntRange(1, 244).Draw(rt, "lastLen"))
+		for i := range inBody {
+			inBody[i] = byte(i*7 + nb)
+		}
+		in := e4.Message{Device: device, R: true, Stream: 5, Function: 1, W: false, Sys: 0x51000000 | uint32(nb)<<8 | uint32(after), Body: inBody}
+		inBlocks := e4.Split(in)
+		n := genBodyLen(rt, 1200)
+		item, enc := binaryOfEncodedLen(n)
+		out := e4.Message{Device: device, R: false, Stream: 6, Function: 11, Body: enc}
+		p.Respond = nil
+		errCh := make(chan error, 1)
+		for i, b := range inBlocks {
+			if i == after {
+				go func() {
+					ctx, cancel := ctxT(10 * time.Second)
+					defer cancel()
+					_, serr := w.conn.SendDataMessage(ctx, out.Stream, out.Function, false, item)
+					errCh <- serr
+				}()
+				time.Sleep(25 * time.Millisecond) // the line engine picks the request up and writes its ENQ
+				synctest.Wait()
+			}
+			res := p.SendRaw(b.Bytes(), nil)
+			if res.Err != nil || !res.Granted || res.Resp != e4.ACK {
+				fail("inbound block %d of %d (the library's own send started after block %d): %+v", i+1, len(inBlocks), after, res)
+			}
+		}
+		synctest.Wait()
+		got := dl.snapshot()
+		if len(got) != 1 {
+			fail("an inbound %d-block message whose blocks %d.. were taken while the library was itself requesting the line was delivered %d times", len(inBlocks), after+1, len(got))
+		}
+		if want := frameOf(&in); !bytes.Equal(got[0], want) {
+			fail("the inbound message was delivered altered:\n got  %x\n want %x", trunc(got[0]), trunc(want))
+		}
+		// now the postponed send
+		blocks, rerr := p.ReceiveMessage(2 * time.Second)
+		serr := <-errCh
+		if serr != nil || rerr != nil {
+			fail("the send postponed by the contention failed: send=%v peer=%v", serr, rerr)
+		}
+		out.Sys = blocks[0].Sys
+		ref := e4.Split(out)
+		if len(blocks) != len(ref) {
+			fail("the postponed %d-byte message arrived in %d blocks, E4 prescribes %d", n, len(blocks), len(ref))
+		}
+		for j := range ref {
+			if !bytes.Equal(blocks[j].Bytes(), ref[j].Bytes()) {
+				fail("block %d of the postponed message: got %v, E4 prescribes %v", j+1, blocks[j], ref[j])
+			}
+		}
+		synctest.Wait()
+		if got := dl.snapshot(); len(got) != 1 {
+			fail("%d messages delivered after the duplex exchange, expected 1", len(got))
+		}
+		nontrivial = true
+		cls = append(cls, fmt.Sprintf("c17l:duplex:inbound-blocks:%d", nb))
+	} else if part == "outbound" {
 		k := rapid.IntRange(1, 3).Draw(rt, "messages")
 		for i := 0; i < k; i++ {
 			n := genBodyLen(rt, 8192)
